@@ -147,7 +147,10 @@ Compact(kind, aged) ==
          \/ \E crash \in 0..MaxDels : ("die" \in DelFaultKinds /\ CompactF(kind, aged, crash, 0, "ok"))
          \/ \E bad \in 1..MaxDels, fk \in DelFaultKinds \ {"die"} : CompactF(kind, aged, MaxDels, bad, fk)
 
+\* End: the single successor of a complete history (so that a generator prints it exactly once)
+End == n = MaxOps /\ n' = MaxOps + 1 /\ UNCHANGED <<idx, ver, hver, floor, rev, marks, expired, lastFloors, hist>>
 Next ==
+    \/ End
     \/ Write
     \/ ("compact" \in OpKinds /\ n >= CompactAfter /\ \E kind \in CompactKinds : \E aged \in 0..(IF Expiry THEN Len(marks) ELSE 0) : Compact(kind, aged))
 
@@ -226,7 +229,7 @@ NonEventsKeepHistory ==
 
 -----------------------------------------------------------------------------
 Behaviour == [base |-> Base, nkeys |-> Cardinality(Keys), ops |-> hist, final |-> [idx |-> idx, ver |-> ver, floor |-> floor, rev |-> rev]]
-Done == n = MaxOps
+Done == n = MaxOps + 1
 Dump == Done => PrintT(<<"BEHAVIOUR", ToJson(Behaviour)>>)
 View == <<idx, ver, hver, floor, rev, n, marks, expired>>
 =============================================================================
